@@ -37,6 +37,7 @@ type ldScenario struct {
 	BulkKeys   int      `json:"bulkkeys"`   // keys requested by a BulkGet caller: 1 = {1}, otherwise {1,2}
 	BulkRef    int      `json:"bulkref"`    // BulkRefresh callers over keys {1,2}
 	InLoader   []string `json:"inloader"`   // writes performed by the first single-key loader run itself, before it returns
+	OutSeq     []string `json:"outseq"`     // outcome of the i-th loader run (script replay of LoadRace.tla behaviours); then Outcomes at random
 	HGate      int      `json:"hgate"`      // 1 = the atomic deletion handler is a gate ("h.atomic"): user code inside the table computation
 }
 
@@ -60,24 +61,48 @@ type ldResult struct {
 	Inflight int        `json:"inflight"`
 	Afresh   int        `json:"afresh"`  // 1 = a Get issued after quiescence on an absent key invoked the loader and returned
 	Hung     int        `json:"hung"`
+	Drift    int        `json:"drift"`   // script steps that could not be followed
+	ScriptN  int        `json:"scriptn"`
+	Dropped  []verifkit.Step `json:"dropped"`
+	Log      []string   `json:"log"`
 }
 
 var ldPoints = map[string]bool{
 	"get.afterLookup": true, "ld.enter": true, "ld.exit": true, "ld.beforeInstall": true, "ld.afterInstall": true,
 	"set.afterCompute": true, "inv.afterCompute": true, "cmp.afterCompute": true, "ev.beforeDelete": true, "db.enter": true,
-	"cp.lock": true, "h.atomic": true,
+	"cp.lock": true, "h.atomic": true, "exec.start": true,
 }
 
 var errLdScripted = errors.New("verif: scripted failure")
 
 func runLoadScenario(sc ldScenario) ldResult {
-	res := ldResult{T: "ld", Sc: sc, Events: []ldEvent{}, Final: []trKV{}}
+	// JSON null is not a TLA+ value: echo empty lists, never nil
+	if sc.OutSeq == nil {
+		sc.OutSeq = []string{}
+	}
+	if sc.InLoader == nil {
+		sc.InLoader = []string{}
+	}
+	if sc.Writers == nil {
+		sc.Writers = []string{}
+	}
+	if sc.Outcomes == nil {
+		sc.Outcomes = []string{"val"}
+	}
+	if sc.Script == nil {
+		sc.Script = []verifkit.Step{}
+	}
+	res := ldResult{T: "ld", Sc: sc, Events: []ldEvent{}, Final: []trKV{}, Dropped: []verifkit.Step{}}
 	var mu sync.Mutex
 	s := verifkit.NewSched(sc.Seed)
 	s.Adopt = true
 	s.Policy = sc.Policy
 	s.Script = append([]verifkit.Step{}, sc.Script...)
 	s.Filter = func(id string) bool { return ldPoints[id] }
+	if sc.Policy == "script" {
+		s.Transparent = map[string]bool{"cp.lock": true} // bucket locks of the cache table and of the in-flight table
+		s.StepTimeout = 15 * time.Millisecond // a scripted step waits for the released goroutine itself; only a blocked one runs into this
+	}
 	if i := strings.Index(sc.Policy, "+"); i >= 0 {
 		target := map[string]string{"+inflight": "ld.exit", "+atinstall": "ld.beforeInstall"}[sc.Policy[i:]]
 		sc.Policy = sc.Policy[:i]
@@ -145,11 +170,27 @@ func runLoadScenario(sc ldScenario) ldResult {
 	}
 	// asynchronous like the default executor, but a panicking reload must not take the test process down
 	var execN atomic.Int64
+	var namedOnce sync.Map
 	o.Executor = func(fn func()) {
 		execN.Add(1)
+		// the first task handed over by a Refresh caller is its reload: a managed goroutine with a stable name ("x" + caller),
+		// parked at the virtual point "start" until scheduled - the step "start" of a refresher in LoadRace.tla
+		if caller := s.Name(); strings.HasPrefix(caller, "r") {
+			if _, dup := namedOnce.LoadOrStore(caller, true); !dup {
+				s.Go("x"+caller, func() {
+					defer execN.Add(-1)
+					defer func() { _ = recover() }()
+					fn()
+				})
+				return
+			}
+		}
 		go func() {
 			defer execN.Add(-1)
 			defer func() { _ = recover() }()
+			// a task handed to the executor starts when the executor gets round to it: a gate (the step "start" of a
+			// refresher in LoadRace.tla is the registration done by this goroutine)
+			s.Point("exec.start", 0)
 			fn()
 		}()
 	}
@@ -165,9 +206,12 @@ func runLoadScenario(sc ldScenario) ldResult {
 	}
 	runs := 0
 	rng := rand.New(rand.NewSource(sc.Seed * 977))
-	pickOutcome := func() string {
+	pickOutcome := func(id int) string {
 		mu.Lock()
 		defer mu.Unlock()
+		if id-1 < len(sc.OutSeq) {
+			return sc.OutSeq[id-1]
+		}
 		return sc.Outcomes[rng.Intn(len(sc.Outcomes))]
 	}
 	newRun := func() int {
@@ -202,7 +246,7 @@ func runLoadScenario(sc ldScenario) ldResult {
 	single := func(fn string) func(ctx context.Context, k int) (int, error) {
 		return func(ctx context.Context, k int) (int, error) {
 			id := newRun()
-			oc := pickOutcome()
+			oc := pickOutcome(id)
 			note(ldEvent{T: "ldenter", Op: fn, K: k, Run: id})
 			s.Point("ld.enter", uint64(id))
 			if id == 1 {
@@ -231,7 +275,7 @@ func runLoadScenario(sc ldScenario) ldResult {
 	loader := ldLoader{load: single("Load"), reload: single("Reload")}
 	bulk := BulkLoaderFunc[int, int](func(ctx context.Context, keys []int) (map[int]int, error) {
 		id := newRun()
-		oc := pickOutcome()
+		oc := pickOutcome(id)
 		for _, k := range keys {
 			note(ldEvent{T: "ldenter", Op: "BulkLoad", K: k, Run: id})
 		}
@@ -338,7 +382,16 @@ func runLoadScenario(sc ldScenario) ldResult {
 			}
 		}))
 	}
+	res.ScriptN = len(sc.Script)
 	res.Diag = s.Run()
+	res.Drift = s.Drift
+	res.Dropped = append([]verifkit.Step{}, s.Dropped...)
+	res.Log = []string{}
+	if os.Getenv("VERIF_KEEPLOG") == "1" {
+		for _, ev := range s.Log {
+			res.Log = append(res.Log, ev.G+"@"+ev.At)
+		}
+	}
 	if res.Diag != "" && res.Diag != "step limit" && !strings.HasPrefix(res.Diag, "panic") && s.WaitDone(5*time.Second) {
 		res.Diag = ""
 	}
